@@ -443,8 +443,13 @@ func (s *Sched) waitStep(ti int) int {
 		}
 		waited += probe
 		if s.goroutineWaiting(t.goid) {
-			// make sure: a message may have been written just before it blocked
-			if k, id, ok := rawRead2Timeout(s.ctlR, 0); ok {
+			// look twice: the state has to last, and a message may have been
+			// written just before the task blocked
+			k, id, ok := rawRead2Timeout(s.ctlR, 10)
+			if !ok && !s.goroutineWaiting(t.goid) {
+				continue
+			}
+			if ok {
 				if id == ti {
 					return stepEnded
 				}
@@ -528,6 +533,20 @@ func (s *Sched) goroutineWaiting(goid uint64) bool {
 			state := buf[j:k]
 			for _, w := range waitStates {
 				if len(state) == len(w) && hasPrefixAt(state, 0, w) {
+					// "semacquire" is also what a goroutine shows while it waits
+					// for the runtime's own semaphores (the start of a GC cycle,
+					// a stop-the-world such as the one this very stack dump
+					// causes): it counts only if the innermost frame is in
+					// package sync (sync.runtime_Semacquire under a WaitGroup)
+					if w == "semacquire" {
+						f := k
+						for f < len(buf) && buf[f] != '\n' {
+							f++
+						}
+						if !hasPrefixAt(buf, f+1, "sync.") {
+							return false
+						}
+					}
 					return true
 				}
 			}
